@@ -3,12 +3,13 @@
 set -e
 export GOFLAGS=-mod=mod GOPROXY=off GOSUMDB=off GOTOOLCHAIN=local
 D=${D:-/tmp/sbdev}
+SRC=${SRC:-/repo}
 # the scratch copy is re-made whenever /repo (commit or working tree) differs from what it was made from
 STAMP="$(git -C /repo rev-parse HEAD) $(git -C /repo status --porcelain | md5sum) $(git -C /repo diff | md5sum)"
 if [ "$1" = "fresh" ] || [ ! -d $D/repo ] || [ "$(cat $D/stamp 2>/dev/null)" != "$STAMP" ]; then
   rm -rf $D; mkdir -p $D
   echo "$STAMP" > $D/stamp
-  rsync -a --exclude .git /repo/ $D/repo/
+  rsync -a --exclude .git $SRC/ $D/repo/
   /verif/bin/simbuild -dir $D/repo -report $D/sites.json
 fi
 mkdir -p $D/h
